@@ -495,6 +495,7 @@ impl<T: Qcow2IoOps> Qcow2Dev<T> {
     }
 
     pub(crate) async fn flush_refcount(&self) -> Qcow2Result<()> {
+        let mut rt_flushed = false;
         loop {
             let rt = &*self.reftable.read().await;
             let done = self
@@ -505,6 +506,14 @@ impl<T: Qcow2IoOps> Qcow2Dev<T> {
             if done {
                 break;
             }
+            rt_flushed = true;
+        }
+
+        // mappings are written after refcount: the refcount table blocks
+        // written above link the new refcount blocks, so they have to be
+        // durable before any mapping to one cluster covered by them
+        if rt_flushed {
+            self.call_fsync(0, usize::MAX, 0).await?;
         }
         Ok(())
     }
